@@ -187,6 +187,25 @@ fn dedups<const D: usize>(id: &str, rng: &mut Rng, out: &mut Out) {
         let grid = if variant == 1 { 1e-10 } else { eps };
         run(&format!("v{variant}"), variant as i32, &|| verif_api::dedup_variant(vs.clone(), variant, eps, grid), out);
     }
+    // end to end: the survivors of `DedupPolicy::Epsilon` as the batch constructor applies it (it
+    // chooses the grid cell size itself); judged only when nothing was skipped for another reason
+    {
+        use delaunay::core::delaunay_triangulation::{ConstructionOptions, DedupPolicy, DelaunayTriangulation};
+        use delaunay::geometry::kernel::FastKernel;
+        let o = ConstructionOptions::default().with_dedup_policy(DedupPolicy::Epsilon { tolerance: eps });
+        let r = catch(|| DelaunayTriangulation::<FastKernel<f64>, i32, (), D>::with_topology_guarantee_and_options_with_construction_statistics(
+            &FastKernel::new(), &vs, delaunay::core::triangulation::TopologyGuarantee::PLManifold, o));
+        if let Ok(Ok((dt, st))) = r {
+            if st.skipped_degeneracy == 0 {
+                let mut surv: Vec<i32> = dt.vertices().map(|(_, v)| v.data.unwrap_or(-1)).collect();
+                surv.sort_unstable();
+                out.case(&format!("{id}_e2e"), "ded", &format!("D={D} variant=20 eps={}", crate::common::hx(eps)));
+                write_in(&vs, out);
+                out.obs("out", &surv.iter().map(|x| x.to_string()).collect::<Vec<_>>().join(" "));
+                out.end();
+            }
+        }
+    }
 }
 
 /// documented contract of the quantiser: grid coordinates in [0, 2^bits) for every supported
